@@ -118,6 +118,21 @@ def main():
             if got_r != list(exp):      # (judged against the specification's verdicts; cases with a tie anywhere are left out)
                 run.violation("sesame:descending-axis", f"the same curve on a descending frequency axis gives {got_r}, the guideline says {list(exp)} for {key_case}",
                               dict(kind="sesame-rev", case=c))
+        # criterion ii with a cycle count that is no whole number (window lengths are seconds, any real number): n_c = l_w n_w f0 = 200.5
+        # passes (> 200), 199.5 fails; criterion i (f0 > 10 / l_w: f0 l_w = 66.5 resp. 66.8) passes, criterion iii does not depend on
+        # the windows - the formulas of Sesame.tla (Nc, RelI, RelII) at window lengths outside the model's integer set
+        if n_ % 25 == 0 and not c.get("alts") and exp[2] in (0, 1):
+            f0_ = float(FREQ[p0 - 1])
+            for nc_, want_ii in ((200.5, 1), (199.5, 0), (200.9, 1)):
+                lw_ = nc_ / (3 * f0_)
+                try:
+                    with contextlib.redirect_stdout(io.StringIO()):
+                        rel2 = [int(x) for x in sesame.reliability(lw_, 3, FREQ, a, std, search_range_in_hz=r, verbose=0)]
+                except Exception as e:
+                    rel2 = f"{type(e).__name__}: {e}"
+                if rel2 != [1, want_ii, exp[2]]:
+                    run.violation("sesame:reliability ii:fractional-cycle-count", f"window length {lw_} s x 3 windows x f0 {f0_} Hz = {nc_} cycles: reliability gives {rel2}, "
+                                  f"the guideline [1, {want_ii}, {exp[2]}] for {key_case}", dict(kind="sesame-nc", case=c, nc=nc_))
         bad = [names[i] for i in range(9) if exp[i] in (0, 1) and got[i] != exp[i]]
         if bad and c.get("alts"):
             if any(all(e_[i] not in (0, 1) or got[i] == e_[i] for i in range(9)) for e_ in c["alts"]):
